@@ -12,8 +12,9 @@ CBMC_BASE = ["--no-malloc-may-fail", "--no-undefined-shift-check", "--no-signed-
              "--object-bits", "16"]
 CBMC_TAIL = ["--sat-solver", "cadical", "--slice-formula"]
 
-RES_RE = re.compile(r"^\[(?:(?P<name>.*)\.)?(?P<cls>[a-zA-Z_-]+)\.(?P<n>\d+)\] line (?P<line>\d+) (?P<desc>.*): (?P<st>SUCCESS|FAILURE|UNKNOWN|ERROR)$")
-RES2_RE = re.compile(r"^\[(?:(?P<name>.*)\.)?(?P<cls>[a-zA-Z_-]+)\.(?P<n>\d+)\] (?P<desc>.*): (?P<st>SUCCESS|FAILURE|UNKNOWN|ERROR)$")
+REC_RE = re.compile(r"^\[(?P<head>.*?\.\d+)\] (?:line (?P<line>\d+) )?(?P<desc>.*): (?P<st>SUCCESS|FAILURE|UNKNOWN|ERROR)$")
+HEAD_RE = re.compile(r"^(?:(?P<name>.*)\.)?(?P<cls>[a-zA-Z_-]+)\.(?P<n>\d+)$")
+HEAD2_RE = re.compile(r"^(?P<name>.*)\.(?P<n>\d+)$")
 HDR_RE = re.compile(r"^(?P<file>\S.*) function (?P<fn>.*)$")
 ID_RE = re.compile(r"\[(KANI_CHECK_ID_[^\]]+)\] ?")
 
@@ -88,7 +89,7 @@ def parse_cbmc(out):
     checks = []
     cur_file, cur_fn = None, None
     END = re.compile(r": (SUCCESS|FAILURE|UNKNOWN|ERROR|UNREACHABLE|SATISFIED|UNSATISFIABLE)$")
-    START = re.compile(r"^\[(?:.*\.)?[a-zA-Z_-]+\.\d+\] ")
+    START = re.compile(r"^\[.*\.\d+\] ")
     buf = None
     records = []
     for ln in out.splitlines():
@@ -111,11 +112,19 @@ def parse_cbmc(out):
         if isinstance(rec, tuple):
             cur_file, cur_fn = rec[1], rec[2]
             continue
-        m = RES_RE.match(rec) or RES2_RE.match(rec)
+        m = REC_RE.match(rec)
         if not m:
             continue
         d = m.groupdict()
-        d.setdefault("line", "0")
+        hm = HEAD_RE.match(d["head"])
+        if hm:
+            d.update(hm.groupdict())
+        else:
+            h2 = HEAD2_RE.match(d["head"])
+            if not h2:
+                continue
+            d.update(name=h2.group("name"), cls="misc", n=h2.group("n"))
+        d["line"] = d.get("line") or "0"
         desc = d["desc"]
         idm = ID_RE.search(desc)
         cid = idm.group(1) if idm else None
@@ -217,6 +226,13 @@ def classify(res):
         reached = reach.get(c["id"], None)
         if is_obl:
             name = desc[desc.index("OBL ") + 4:].strip().strip('"')
+            if name.startswith("!"):
+                # must-be-unreachable obligation: discharged iff the location is not reachable
+                ok_unreach = (reached is False) or (c["status"] == "SUCCESS")
+                obls.append({"name": name, "status": "SUCCESS" if ok_unreach else "FAILURE", "reached": True, "line": c["line"], "fn": c["fn"]})
+                if not ok_unreach:
+                    failed.append(c)
+                continue
             obls.append({"name": name, "status": c["status"], "reached": reached, "line": c["line"], "fn": c["fn"]})
             if c["status"] == "FAILURE":
                 failed.append(c)
